@@ -941,7 +941,7 @@ def _hoist_condition_calls(body, site, g, inl):
             core = cur
             hit, _ = site(strip(core)) if strip(core).get("k") in ("CallExpr", "CXXMemberCallExpr") else (None, None)
             if hit is not None:
-                return (parent, idx) if (hit[2] == "tail" and hit[0] is not g and parent is not None) else None
+                return (parent, idx) if (hit[2] in ("tail", "multi") and hit[0] is not g) else None
             k = cur.get("k")
             ch = cur.get("c", [])
             if k in ("ParenExpr", "ImplicitCastExpr", "ExprWithCleanups", "MaterializeTemporaryExpr", "CXXBindTemporaryExpr") and len(ch) == 1:
@@ -980,6 +980,11 @@ def _hoist_condition_calls(body, site, g, inl):
                     loc = find(x["cond"])
                     if loc is not None:
                         parent, idx = loc
+                        if parent is None:
+                            parent, idx = {"c": [x["cond"]]}, 0      # the call is the whole condition
+                            whole = True
+                        else:
+                            whole = False
                         call = parent["c"][idx]
                         inl.site += 1
                         did = _FRESH * 11 + inl.site
@@ -987,6 +992,8 @@ def _hoist_condition_calls(body, site, g, inl):
                         t = (call.get("t") or "auto")
                         var = {"k": "Var", "did": did, "name": name, "t": t if t.startswith("const ") else "const " + t, "init": call, "l": x.get("l")}
                         parent["c"][idx] = {"k": "DeclRefExpr", "l": call.get("l"), "t": t, "vc": "l", "ref": {"did": did, "dk": "Var", "name": name}}
+                        if whole:
+                            x["cond"] = parent["c"][0]
                         out.append({"k": "DeclStmt", "l": x.get("l"), "decls": [var], "hoisted_from_condition": True})
                 out.append(x)
             n["c"] = out
